@@ -21,6 +21,10 @@
 #include <recint/recint.h>
 #include "givinteger.h"
 #include "montgomery-ruint.h"
+#include "modular.h"
+#include <signal.h>
+#include <sys/time.h>
+#include <unistd.h>
 
 using RecInt::ruint;
 using RecInt::rmint;
@@ -60,6 +64,10 @@ template <size_t K> struct OpenR : public Givaro::Montgomery<ruint<K>> {
 };
 
 #define V(name) else if (v == name)
+
+// per-request CPU-time watchdog (load-independent): see harness/c07_montgomery.C
+static void on_prof(int) { const char m[] = "WATCHDOG does-not-return\n"; ssize_t r = write(1, m, sizeof(m) - 1); (void)r; _exit(75); }
+static void arm(long sec) { struct itimerval it; it.it_interval.tv_sec = 0; it.it_interval.tv_usec = 0; it.it_value.tv_sec = sec; it.it_value.tv_usec = 0; setitimer(ITIMER_PROF, &it, 0); }
 
 template <size_t K, size_t MG> struct RunM {
     typedef rmint<K, MG> E;
@@ -242,10 +250,13 @@ int main(int argc, char** argv) {
         return 0;
     }
     std::string line;
+    signal(SIGPROF, on_prof);
+    const long budget = getenv("C07_CPU_BUDGET") ? atol(getenv("C07_CPU_BUDGET")) : 120;
     while (std::getline(std::cin, line)) {
         std::istringstream in(line);
         std::string v; int K;
         if (!(in >> v >> K)) continue;
+        arm(budget);
         Args a; std::string t;
         while (in >> t) { mpz_class z; z.set_str(t, 0); a.push_back(z); }
         std::ostringstream o; bool ok = false;
@@ -257,7 +268,8 @@ int main(int argc, char** argv) {
             case 10: ok = RunK<10>::go(v, a, o); break;
             default: break;
         }
-        if (!ok) std::cout << "UNKNOWN-VARIANT\n"; else std::cout << o.str() << "\n";
+        arm(0);
+        if (!ok) std::cout << "UNKNOWN-VARIANT\n" << std::flush; else std::cout << o.str() << "\n" << std::flush;
     }
     return 0;
 }
